@@ -98,11 +98,30 @@ package container
 //@   assigns P.st
 //@   ensures result == nil ==> P.st == 0 || P.st == 9
 
+// C13 (model R in /verif/spec/reset_R.contracts): nil means every entry the directory listing returned
+// was removed (RemoveAll returned nil for dir/name), whatever its name.
+//@ func container.removeContents props C13
+//@   arith int
+//@   assigns R.names, R.gone, R.emptied
+//@   ensures result == nil ==> forall k int :: 0 <= k && k < len(R.names) ==> R.gone[joined(dir, R.names[k])]
+//@   abstracts result == nil ==> R.emptied == old(R.emptied)[dir := true]
+//@   abstracts result != nil ==> R.emptied == old(R.emptied)
+//@   loop 0: invariant -1 <= rangeindex && rangeindex < len(names) && names == R.names
+//@   loop 0: invariant err == nil ==> forall k int :: 0 <= k && k <= rangeindex ==> R.gone[joined(dir, R.names[k])]
+
+//@ func pkg/mount.(Mount).IsTmpFs props C13
+//@   arith int
+//@   assigns nothing
+//@   ensures result == (m.FsType == "tmpfs")
+
+// the success reply of Reset is sent only after every tmpfs mount of the configuration was emptied
 //@ func container.(*containerServer).handleReset props C10 C13
 //@   arith int
 //@   requires P.st == 1
-//@   assigns P.st
+//@   assigns P.st, R.names, R.gone, R.emptied
 //@   loop 0: invariant P.st == 1 && -1 <= rangeindex && rangeindex < len(c.Mounts)
+//@   loop 0: invariant forall k int :: 0 <= k && k <= rangeindex && c.Mounts[k].FsType == "tmpfs" ==> R.emptied[joined("/", c.Mounts[k].Target)]
+//@   callsite (*containerServer).sendReply: assert @C13 forall k int :: 0 <= k && k < len(c.Mounts) && c.Mounts[k].FsType == "tmpfs" ==> R.emptied[joined("/", c.Mounts[k].Target)]
 //@   ensures result == nil ==> P.st == 0 || P.st == 9
 
 //@ func container.(*containerServer).handleSymlink props C10 C14
